@@ -197,6 +197,11 @@ def gen_cases(prop, u, seed, tier, probe=None):
                     for w in sorted(set([0, 1, 2, 3, nv - 1, nv, nv + 1, 255, 256, 2**32, 2**32 + 1, 2**63, 2**64 - 1])):
                         if w < nv: continue
                         case(i, 0, 'setw:%d:8:%d' % (r['offset'], w), v, 'tag-word', nv=nv, tag=w, off=r['offset'], last=(r['offset'] + 8 == len(ps[0]) // 2))
+    elif prop == 'C18':
+        for i, t in enumerate(u.types):
+            for v in values_for(t, rng, nvals):
+                case(i, 0, '-', v, 'plain')
+                cs.add('schema %d %s' % (i, v), kind='schema', ti=i, val=v, family='schema')
     elif prop == 'C13':
         for k_, t in enumerate(u.slice_elems):
             cs.add('stype %d %s' % (k_, t.term()), kind='stype', ti=None)
